@@ -156,7 +156,7 @@ structure Node where
   pref : List Nat := []      -- stands in for random.choice
   clock : Nat := 0           -- my_peer's Lamport clock (global time)
   blacklist : List Addr := []      -- Network.blacklist (addresses of bootstrap servers: never verified, never walked to)
-  maxPeers : Nat := 30       -- Community.max_peers (DEFAULT_MAX_PEERS; the model only has non-negative limits)
+  maxPeers : Int := 30       -- Community.max_peers (DEFAULT_MAX_PEERS; negative = unlimited)
 deriving Repr, Inhabited
 
 def inLanSubnets (ip : Nat) : Bool :=
@@ -187,6 +187,17 @@ def Node.findPeer (n : Node) (key : Nat) : Option PeerRec := n.peers.find? (fun 
 def Node.knows (n : Node) (key : Nat) : Bool := n.peers.any (fun p => p.key == key)
 
 def Node.hasSvc (n : Node) (key s : Nat) : Bool := n.svcs.any (fun x => x.1 == key && x.2 == s)
+
+/-- Network.remove_peer (churn: a discovery strategy drops a peer that stopped answering): its addresses leave the
+    address table, it leaves the verified peers and the service map.  The per-service caches of network.py are not
+    modelled: they must be transparent. -/
+def Node.removePeer (n : Node) (key : Nat) : Node :=
+  match n.findPeer key with
+  | none => { n with svcs := n.svcs.filter (fun x => x.1 != key) }
+  | some p =>
+    { n with all := n.all.filter (fun w => !p.addrs.contains w.addr),
+             peers := n.peers.filter (fun q => q.key != key),
+             svcs := n.svcs.filter (fun x => x.1 != key) }
 
 /-- Network.discover_services(peer, [s]) — also recorded for keys that are not (or cannot be) verified -/
 def Node.addSvc (n : Node) (key s : Nat) : Node :=
@@ -291,7 +302,7 @@ def Node.onIntroReq (n : Node) (src : Addr) (msgNs : Bool) (key ident : Nat) (pl
   let p1 := { p0 with ns := p0.ns || msgNs }
   let n0 := if n0.knows key then n0.setPeer p1 else n0     -- wrapper + on_old/new_introduction_request mutate a stored peer
   -- `if 0 <= self.max_peers < len(self.get_peers()): return` — at capacity the request is not answered
-  if Gen.atCapacity n0.maxPeers (n0.getPeers s).length then (n0, []) else
+  if Gen.atCapacity n0.maxPeers ((n0.getPeers s).length : Nat) then (n0, []) else
   let p2 := if Gen.learnsLan pl then { p1 with lan := some (Gen.learnedLan pl) } else p1
   let n1 := (n0.addVerified p2).addSvc key s   -- (a stored object is mutated in place; addVerified writes a known key back)
   let (lanSock, sock, dst) := Gen.respArgs pl p2.view
@@ -412,6 +423,18 @@ def World.walkAll (w : World) (i : Nat) (s : Nat := 0) : World :=
   match w.nodes[i]? with
   | none => w
   | some n => (n.walkable s).foldl (fun acc a => acc.walk i a s) w
+
+/-- the host's NAT mapping changes (box reboot / mapping timeout: same box, new WAN port; roaming: another box and
+    public ip): new WAN address, empty filter state.  The LAN address is kept. -/
+def World.remap (w : World) (i : Nat) (box : Nat) (wan : Addr) : World :=
+  match w.hosts[i]? with
+  | none => w
+  | some h => { w with hosts := w.hosts.set i { h with box := box, wan := wan, sent := [] } }
+
+def World.removePeerAt (w : World) (i key : Nat) : World :=
+  match w.nodes[i]? with
+  | none => w
+  | some n => { w with nodes := w.nodes.set i (n.removePeer key) }
 
 def World.addHost (w : World) (h : Host) (clock : Nat := 0) : World :=
   let k := w.hosts.length
